@@ -207,6 +207,9 @@ func run(c Case) (res ev.Result) {
 	ev.Try(func() {
 		build()
 		_ = append(m, 0xEE, 0xEE, 0xEE, 0xEE)
+		for i := range m {
+			m[i] ^= 0xFF // ... and may overwrite what it got
+		}
 		m = nil
 	})
 	if p := ev.Try(build); p != "" {
@@ -328,6 +331,25 @@ func (c Case) inverse(m smf.Message) string {
 		if [5]int{int(a), int(b), int(cc), int(d), int(e)} != [5]int{c.A, c.B, c.C, c.D, c.E} {
 			return fmt.Sprintf("GetMetaSMPTEOffsetMsg = %v, want %v", []uint8{a, b, cc, d, e}, []int{c.A, c.B, c.C, c.D, c.E})
 		}
+		// only the arguments that are not nil are filled: every subset must give the same values
+		want := [5]int{c.A, c.B, c.C, c.D, c.E}
+		for mask := 0; mask < 32; mask++ {
+			vals := [5]uint8{0xEE, 0xEE, 0xEE, 0xEE, 0xEE}
+			var ps [5]*uint8
+			for i := range ps {
+				if mask&(1<<i) != 0 {
+					ps[i] = &vals[i]
+				}
+			}
+			if !m.GetMetaSMPTEOffsetMsg(ps[0], ps[1], ps[2], ps[3], ps[4]) {
+				return fmt.Sprintf("GetMetaSMPTEOffsetMsg rejects its message when called with nil pattern %05b", mask)
+			}
+			for i := range ps {
+				if ps[i] != nil && int(vals[i]) != want[i] {
+					return fmt.Sprintf("GetMetaSMPTEOffsetMsg called with nil pattern %05b fills argument %d with %d, want %d", mask, i, vals[i], want[i])
+				}
+			}
+		}
 	case "TimeSig", "Meter":
 		var n, d, cl, ds uint8
 		m.GetMetaTimeSig(&n, &d, &cl, &ds)
@@ -352,6 +374,29 @@ func (c Case) inverse(m smf.Message) string {
 		if !m.GetMetaMeter(&mn, &md) || int(mn) != c.A || int(md) != wden {
 			return fmt.Sprintf("GetMetaMeter = %d/%d, want %d/%d", mn, md, c.A, wden)
 		}
+		wantTS := [4]int{c.A, wden, wc, wd}
+		for mask := 0; mask < 16; mask++ {
+			vals := [4]uint8{0xEE, 0xEE, 0xEE, 0xEE}
+			var ps [4]*uint8
+			for i := range ps {
+				if mask&(1<<i) != 0 {
+					ps[i] = &vals[i]
+				}
+			}
+			if !m.GetMetaTimeSig(ps[0], ps[1], ps[2], ps[3]) {
+				return fmt.Sprintf("GetMetaTimeSig rejects its message when called with nil pattern %04b", mask)
+			}
+			for i := range ps {
+				if ps[i] != nil && int(vals[i]) != wantTS[i] {
+					return fmt.Sprintf("GetMetaTimeSig called with nil pattern %04b fills argument %d with %d, want %d", mask, i, vals[i], wantTS[i])
+				}
+			}
+			if mask < 4 {
+				if !m.GetMetaMeter(ps[0], ps[1]) || (ps[0] != nil && int(vals[0]) != c.A) || (ps[1] != nil && int(vals[1]) != wden) {
+					return fmt.Sprintf("GetMetaMeter called with nil pattern %02b gives %d/%d, want %d/%d", mask, vals[0], vals[1], c.A, wden)
+				}
+			}
+		}
 	case "Key":
 		// out-parameters that still hold the opposite of the expected answer (as when one variable is
 		// reused for several messages)
@@ -361,6 +406,29 @@ func (c Case) inverse(m smf.Message) string {
 		kk := smf.Key{Key: 0xEE, Num: 0xEE, IsMajor: !c.Flag1, IsFlat: !c.Flag2}
 		if !m.GetMetaKey(&kk) || kk.Key != k || kk.Num != n || kk.IsMajor != maj || (c.A > 0 && kk.IsFlat != flat) {
 			return fmt.Sprintf("MetaKey(num=%d, major=%v, flat=%v): GetMetaKey into a used variable gives %+v, GetMetaKeySig gives tonic %d num %d major %v flat %v", c.A, c.Flag1, c.Flag2, kk, k, n, maj, flat)
+		}
+		for mask := 0; mask < 16; mask++ {
+			var pk, pn *uint8
+			var pm, pf *bool
+			k2, n2, m2, f2 := uint8(0xEE), uint8(0xEE), !maj, !flat
+			if mask&1 != 0 {
+				pk = &k2
+			}
+			if mask&2 != 0 {
+				pn = &n2
+			}
+			if mask&4 != 0 {
+				pm = &m2
+			}
+			if mask&8 != 0 {
+				pf = &f2
+			}
+			if !m.GetMetaKeySig(pk, pn, pm, pf) {
+				return fmt.Sprintf("GetMetaKeySig rejects its message when called with nil pattern %04b", mask)
+			}
+			if (pk != nil && k2 != k) || (pn != nil && n2 != n) || (pm != nil && m2 != maj) || (pf != nil && c.A > 0 && f2 != flat) {
+				return fmt.Sprintf("GetMetaKeySig called with nil pattern %04b gives tonic %d num %d major %v flat %v, with all arguments %d %d %v %v", mask, k2, n2, m2, f2, k, n, maj, flat)
+			}
 		}
 		wt := tonic(c.A, c.Flag2, c.Flag1)
 		if int(k) != wt || int(n) != c.A || maj != c.Flag1 || (c.A > 0 && flat != c.Flag2) {
@@ -437,7 +505,7 @@ func genCase(t *rapid.T) Case {
 func d8(t *rapid.T) int { return int(rapid.Byte().Draw(t, "byte")) }
 
 var metas = ev.NewCheck("C15", "constructors",
-	"rapid: the 9 text constructors with arbitrary bytes of length 0..20000 (biased to 127/128/129/16383/16384), MetaSequencerData 1..20000 bytes, SMPTE offset fields, time signatures numerator 0..255 x denominator 1..128 (powers of two) x clocks x 32nds (0 = documented shorthand for 8), MetaMeter, tempi as every 24-bit microseconds-per-quarter value (sampled) and random BPM 3.58..6e7; a damaged text/data event is decoded before every case (nothing of it may leak into the next result); payloads start or end with magic sequences (byte order marks, line ends, NUL, FF 2F 00, F7) in one case of six; oracle: message is FF/type/canonical VLQ/payload with exact length by the harness parser, exactly the matching accessor accepts, accessor returns the arguments (tempo at most 1 us per quarter away, the resolution of the field); non-trivial = payload >= 128 bytes or a non-text constructor; distinct by case hash",
+	"rapid: the 9 text constructors with arbitrary bytes of length 0..20000 (biased to 127/128/129/16383/16384), MetaSequencerData 1..20000 bytes, SMPTE offset fields, time signatures numerator 0..255 x denominator 1..128 (powers of two) x clocks x 32nds (0 = documented shorthand for 8), MetaMeter, tempi as every 24-bit microseconds-per-quarter value (sampled) and random BPM 3.58..6e7; a damaged text/data event is decoded before every case (nothing of it may leak into the next result); payloads start or end with magic sequences (byte order marks, line ends, NUL, FF 2F 00, F7) in one case of six; the multi-value accessors (SMPTE offset, time signature, meter, key signature) are also called with every subset of nil out-parameters; oracle: message is FF/type/canonical VLQ/payload with exact length by the harness parser, exactly the matching accessor accepts, accessor returns the arguments (tempo at most 1 us per quarter away, the resolution of the field); non-trivial = payload >= 128 bytes or a non-text constructor; distinct by case hash",
 	genCase, run)
 
 func TestPropConstructors(t *testing.T) { metas.Rapid(t, 4000, 100000) }
